@@ -581,7 +581,8 @@ Proof.
   { rewrite <- Hsigs, map_map. reflexivity. }
   cbn [generated_regions]. apply good_decided_cl.
   apply Forall_app. split; [apply Forall_app; split; [|apply Forall_app; split]|].
-  - unfold first_param_toks, first_where_toks. cbn [i_gen i_self g_params g_where p_items p_of_list impl_params app where_of_list wp_toks mk_pred].
+  - unfold app_param_toks, first_where_toks. cbn [i_gen i_self g_params g_where p_items p_of_list where_of_list wp_toks mk_pred].
+    fold nonlife. rewrite filter_nonlife_trait_impl_params.
     constructor; [apply impl_t_param_cl|]. constructor; [unfold cl; reflexivity|]. constructor; [|constructor].
     apply impl_t_bounds_cl; try assumption. apply forallb_Forall. exact S2.
   - unfold impl_fns. cbn [i_items]. apply (methods_cl a _ fns methods Hr S3 (map_res_ok _ _ _ Hm)).
